@@ -10,9 +10,23 @@ from .core import run_property
 G2_, G3_ = (2, 1, 2), (3, 1, 2)
 
 
+def _nolineage_runs(prop, tier):
+    """solutions whose feature registry has no lineage key (older saves): the lineage feature is absent"""
+    from harness import step, step_replay
+    from .core import Run
+
+    n = 3 if tier == "quick" else 4
+    return [Run(f"step:{a}:N={n}:no_lineage_feature", step.harness, dict(N=n, action=a, props=[prop], lineage=False),
+                step_replay.replay, ("accepted",) if prop != "C11" else (),
+                f"{n} node slots, solution without lineage feature")
+            for a in ("UserAddEdge", "UserDeleteEdge", "UserDeleteNode", "UserAddNode", "UserSwapPredecessors")]
+
+
 def _step(prop, tier, seed, actions, extra_assume=(), base=(), seg=(), extra_runs=()):
     runs = (list(extra_runs) + R.step_runs(prop, tier, actions) + R.base_runs(prop, tier, base)
             + R.seg_runs(prop, tier, list(seg)))
+    if prop in ("C01", "C03", "C04", "C06", "C11"):
+        runs += _nolineage_runs(prop, tier)
     return run_property(prop, tier, runs, explanation=R.EXPL,
                         assumptions=R.STEP_ASSUME + list(extra_assume) + (R.SEG_ASSUME if seg else []), seed=seed,
                         stubs=R.SEG_STUBS if seg else ["networkx.DiGraph -> SymDiGraph",
@@ -241,7 +255,8 @@ EXPORT_STUBS = ["zarr/geff/pandas/tifffile/map_array/json/np.save -> capturing s
 
 
 def C15(tier, seed):
-    ops = [("geff", dict(op="geff")), ("csv", dict(op="csv")), ("csv:display", dict(op="csv", display_names=True)),
+    ops = [("geff", dict(op="geff")), ("geff:bounded_labels", dict(op="geff", max_label=4, shape=(3, 1, 1))),
+           ("csv", dict(op="csv")), ("csv:display", dict(op="csv", display_names=True)),
            ("csv:export_seg", dict(op="csv", export_seg=True)), ("geff:noseg", dict(op="geff", seg=False)),
            ("csv:noseg:per_axis_pos", dict(op="csv", seg=False, multi_pos=True))]
     return run_property("C15", tier, _export_runs("C15", tier, ops), explanation=R.EXPL, seed=seed,
